@@ -85,6 +85,86 @@ def kernel_shard(conn, nio, T, dt, sign):
     return tally
 
 
+def kernel_delayed_shard(conn, nio, T, dt, sign):
+    """KernelSTDP(delayed=True) on a connection with per-synapse delays (every assignment over {0,1,2} steps): the presynaptic
+    event times are read d ago, i.e. the rule sees each presynaptic spike when it *arrives* at the synapse. Reference: kernel
+    formula on the last arrived presynaptic spike (arrival = spike time + delay) and the last postsynaptic spike."""
+    from checks.trainer_common import shifted_pre
+
+    tally = Tally()
+    spec = Cellspec(conn, *nio)
+    hs = all_histories(T, spec.in_bits + spec.out_bits)
+    B = len(hs)
+    sp, sn = c18.SIGNS[sign]
+    lp, ln = sp * c18.LRP, sn * c18.LRN
+    pre_bits = [[h[t][: spec.in_bits] for h in hs] for t in range(T)]
+    post_bits = [[h[t][spec.in_bits:] for h in hs] for t in range(T)]
+    pre_syn = torch.stack([spec.pre_syn(pre_bits[t]) for t in range(T)], 0)
+    post = torch.stack([spec.post_ref(post_bits[t]) for t in range(T)], 0)
+    idx = spec.mask().nonzero()
+    for assign in itertools.product(range(3), repeat=min(len(idx), 2)):
+        delays = torch.zeros(spec.wshape)
+        for q, p_ in enumerate(idx):
+            delays[tuple(p_.tolist())] = assign[q % len(assign)] * dt
+        case = {"rule": "kernel(delayed=True)", "conn": conn, "io": list(nio), "T": T, "dt": dt, "sign": sign, "delays_in_steps": list(assign)}
+        tally.add("evaluations")
+        try:
+            layer = spec.build(dt, B, 2 * dt, delays)
+            tr = KernelSTDP(exp_stdp_post_kernel, exp_stdp_pre_kernel, dict(learning_rate=lp, time_constant=c18.TCP),
+                            dict(learning_rate=ln, time_constant=c18.TCN), delayed=True, batch_reduction=identity_reduction)
+            tr.register_cell("cell", layer.cell)
+        except Exception as ex:
+            tally.violation(f"exception:kernel-delayed:register:{type(ex).__name__}", case, repr(ex))
+            continue
+        arrived = shifted_pre(pre_syn, spec.delays_to_K(delays, dt))  # (T,B,F,N,L)
+        Fn, N, L = spec.F, spec.N, spec.L
+        last_pre = torch.full((B, Fn, N, L), float("nan"), dtype=F64)
+        last_post = torch.full((B, Fn, 1, L), float("nan"), dtype=F64)
+        z = torch.zeros(B, *spec.wshape, dtype=F64)
+        total = torch.zeros(B, Fn, N, dtype=F64)
+        tpos = torch.zeros(B, Fn, N, dtype=F64)
+        for t in range(T):
+            try:
+                step_layer(layer, spec.pre_tensor(pre_bits[t]), spec.post_tensor(post_bits[t]))
+                tr()
+            except Exception as ex:
+                tally.violation(f"exception:kernel-delayed:{type(ex).__name__}", {**case, "step": t}, repr(ex))
+                break
+            now = t * dt
+            last_pre = torch.where(arrived[t], torch.full_like(last_pre, now), last_pre)
+            last_post = torch.where(post[t].reshape(B, Fn, 1, L), torch.full_like(last_post, now), last_post)
+            td = last_post - last_pre
+            ok = ~torch.isnan(td)
+            a = torch.where(ok, td.abs(), torch.zeros_like(td))
+            val = lp * torch.exp(-a / c18.TCP) * ((td >= 0) & ok) + ln * torch.exp(-a / c18.TCN) * ((td < 0) & ok)
+            total = total + val.sum(-1)
+            tpos = tpos + val.clamp_min(0).sum(-1)
+            acc = layer.connection.updater.weight
+            pos = z if acc.pos is None else acc.pos.to(F64)
+            neg = z if acc.neg is None else acc.neg.to(F64)
+            exp = spec.to_weight_space(total)
+            mask = spec.mask()
+            dd = (((pos - neg) - exp).abs() * mask).reshape(B, -1).amax(1)
+            bi = (dd > 1e-5).nonzero().reshape(-1)
+            if len(bi):
+                b = int(bi[0])
+                tally.violation(f"net!=signed-rule:kernel-delayed:{sign}", {**case, "step": t, "pre_history": [pre_bits[u][b] for u in range(t + 1)],
+                                "post_history": [post_bits[u][b] for u in range(t + 1)]},
+                                f"step {t}: pos-neg {(pos - neg)[b].reshape(-1).tolist()} vs kernel formula on arrival times {exp[b].reshape(-1).tolist()}",
+                                exp[b].tolist(), (pos - neg)[b].tolist())
+                break
+            if bool((pos < -1e-9).any()) or bool((neg < -1e-9).any()):
+                tally.violation("negative-part:kernel-delayed", {**case, "step": t}, "a part handed to the updater has negative entries")
+                break
+            if not torch.allclose(pos * mask, spec.to_weight_space(tpos) * mask, atol=1e-5):
+                tally.violation(f"routing:kernel-delayed:{sign}:pos", {**case, "step": t}, "potentiating part is not the sum of the positive kernel terms")
+                break
+        if any(assign):
+            tally.mark("nontrivial", ("kernel-delayed", conn, nio, T, dt, sign, assign))
+    tally.add("histories", B * 3 ** min(len(idx), 2))
+    return tally
+
+
 def cos_post_kernel(diff, learning_rate, time_constant, **kwargs):
     return torch.exp(diff.abs() / (-time_constant)) * torch.cos(diff) * (learning_rate * (diff >= 0).to(dtype=diff.dtype))
 
@@ -349,6 +429,8 @@ def run(rep):
         jobs.append((kernel_shard, ("dense", (1, 1), T1 + 1, 1.0, sign)))
         jobs.append((kernel_shard, ("dense", (2, 2), 2, 1.0, sign)))
         jobs.append((kernel_shard, ("conv", (1, 1), 2, 0.5, sign)))
+        jobs.append((kernel_delayed_shard, ("dense", (1, 1), T1 + 1, 1.0, sign)))
+        jobs.append((kernel_delayed_shard, ("dense", (2, 2), 2, 1.0, sign)))
     for param in ("weight", "bias", "delay"):
         for lam in (0.25, -0.25):
             jobs.append((homeostasis_shard, (param, lam, (1, 1), 4 if quick else 6)))
